@@ -244,9 +244,12 @@ def run_cells_case(ctx, case):
         gr.cells_inside_polygon(poly.copy())
         if int(poly.sum()) % 2:
             gr = gr.clone()
-        gr.xllcorner = xll
-        gr.yllcorner = yll
-        gr.cellsize = csz
+        try:
+            gr.xllcorner = xll
+            gr.yllcorner = yll
+            gr.cellsize = csz
+        except AttributeError:
+            gr = Grid("g", nc, nr, cellsize=csz, xllcorner=xll, yllcorner=yll)
     ctx.api("cells_inside_polygon")
     df = gr.cells_inside_polygon(poly.copy())
     cells = set(int(c) for c in df["cell"].values)
